@@ -224,13 +224,14 @@ def pools(tier):
                ("t1:table,1pos,n<=2,k=3,prio", "map", H(1, 2), ["x"], (0, 1), 3, ("plain",), 3),
                ("t2:table,2pos,n=1,k=3", "map", H(1, 1), ["xy"], (0,), 3, ("plain",), 4)]
     else:
-        cfg = [("O1:Ovld,1pos,n<=3,k=3,prio", "ovld", H(1, 3), ["x"], (0, 1), 3, ("plain", "cn"), 6),
-               ("O1k4:Ovld,1pos,n<=2,k=4", "ovld", H(1, 2), ["x"], (0, 1), 4, ("plain",), 5),
-               ("O2:Ovld,2pos,n<=2,k=3", "ovld", H(1, 2), ["xy"], (0,), 3, ("plain", "cn"), 5),
-               ("O3:Ovld,mixed shapes,n<=2,k=3", "ovld", H(1, 2), ["x", "xy", "xy?", "x*k?", "x*k", "x?"], (0,), 3, ("plain", "cn"), 5),
-               ("O5:Ovld,1pos,n<=3,k=3 plain methods + a recursive walker over lists", "ovld", H(1, 3), ["x"], (0, 1), 3, ("rec+",), 5),
-               ("T1:table,1pos,n<=3,k<=4,prio", "map", H(1, 3), ["x"], (0, 1), 4, ("plain",), 6),
-               ("T2:table,2pos,n<=2,k=3", "map", H(1, 2), ["xy"], (0, 1), 3, ("plain",), 6)]
+        # (depths / shapes trimmed after a measured > 1.5 h)
+        cfg = [("O1:Ovld,1pos,n<=3,k=3,prio", "ovld", H(1, 3), ["x"], (0, 1), 3, ("plain", "cn"), 5),
+               ("O1k4:Ovld,1pos,n<=2,k=4", "ovld", H(1, 2), ["x"], (0, 1), 4, ("plain",), 4),
+               ("O2:Ovld,2pos,n<=2,k=3", "ovld", H(1, 2), ["xy"], (0,), 3, ("plain", "cn"), 4),
+               ("O3:Ovld,mixed shapes,n<=2,k=3", "ovld", H(1, 2), ["x", "xy", "xy?", "x*k?"], (0,), 3, ("plain", "cn"), 4),
+               ("O5:Ovld,1pos,n<=2,k=3 plain methods + a recursive walker over lists", "ovld", H(1, 2), ["x"], (0, 1), 3, ("rec+",), 5),
+               ("T1:table,1pos,n<=3,k<=4,prio", "map", H(1, 3), ["x"], (0, 1), 4, ("plain",), 5),
+               ("T2:table,2pos,n<=2,k=3", "map", H(1, 2), ["xy"], (0, 1), 3, ("plain",), 5)]
     for name, kind, hiers, shapes, prios, k, bodies, depth in cfg:
         for h in hiers:
             ds = spaces.descriptors(h.type_names, shapes, prios)
